@@ -110,9 +110,23 @@ def _run_chunk(exe, mode, infile, outfile, filesdir, deadline_ms, ncases):
             return
 
 
-def run_harness(mode, cases, name, flavour="default", nproc=None, deadline_ms=3000):
+def run_harness(mode, cases, name, flavour="default", nproc=None, deadline_ms=3000, retry_timeouts=True):
     """cases: list of dicts (each with 'id').  Returns list of observation dicts in case order;
-    for mode 'compile' one per (case, variant)."""
+    for mode 'compile' one per (case, variant).
+    A deadline is a wall-clock measure and the machine may be busy: every case that timed out is run once more, few at a
+    time and with eight times the deadline, before "timeout" is believed (a real hang times out again)."""
+    res = _run_harness(mode, cases, name, flavour, nproc, deadline_ms)
+    if retry_timeouts:
+        late = [i for i, ob in enumerate(res) if any(o.get("status") == "timeout" for o in ob)]
+        if late:
+            log("%s: %d case(s) timed out at %d ms; running them again with %d ms" % (name, len(late), deadline_ms, 8 * deadline_ms))
+            again = _run_harness(mode, [cases[i] for i in late], name + "_retry", flavour, min(4, len(late)), 8 * deadline_ms)
+            for i, ob in zip(late, again):
+                res[i] = ob
+    return res
+
+
+def _run_harness(mode, cases, name, flavour, nproc, deadline_ms):
     from concurrent.futures import ThreadPoolExecutor
     exe = build_harness(flavour)
     d = workdir("h_" + name)
